@@ -9,10 +9,11 @@ _built = {}
 def build(timeout=1800):
     """(Re)extract and compile when Model/Concrete.vo is newer than the binary."""
     if _built.get('m'): return True, ''
-    ok, o, _ = coqmod.make(['Model/Concrete.vo'])
+    tables = ['Model/Concrete.vo', 'Model/OpTable.vo', 'Model/FieldTable.vo', 'Model/GadgetTable.vo']
+    ok, o, _ = coqmod.make(tables)
     if not ok: return False, o
-    vo = os.path.join(COQ, 'Model', 'Concrete.vo')
-    if (not os.path.exists(MODEL_BIN)) or os.path.getmtime(MODEL_BIN) < os.path.getmtime(vo):
+    newest = max(os.path.getmtime(os.path.join(COQ, t)) for t in tables)
+    if (not os.path.exists(MODEL_BIN)) or os.path.getmtime(MODEL_BIN) < newest:
         with Lock('extract'):
             rc, o = run(['bash', os.path.join(COQ, 'Extract', 'build.sh')], timeout=timeout)
         if rc != 0: return False, o
